@@ -13,7 +13,7 @@ Strings travel as the hex of their UTF-8 (`-` = empty), byte strings as hex (`-`
 `diff <spec> <module> <class> <version> <vars> <spec'> <module'> <class'> <version'> <vars'>`
                                            → `same` | `pos:<first differing position>` | `len:<a>,<b>` (one stream is a prefix of the other) | `ERR`
 
-spec:  `cf:<lat|->:<lon|->`  `shoc_simple`  `arakawa:<kind>=<lat>/<lon>,…`  `ugrid:<key|->:<role,role|->`
+spec:  `cf:<lat|->:<lon|->`  `shoc_simple`  `arakawa:<kind>=<lat>/<lon>,…`  `ugrid:<role,role|->`
 vars:  `;`-separated, each `name:dims:c|d:valuedtype:encdtype|-:shape:data|*:count:blob:attrs`
        dims `hex,hex|-`, shape `2x3|-`, attrs `khex=vhex,…|-`; data `*` = omitted by the harness
        (a variable the generator knows is not geometry); if the model needs it, the answer is `ERR:omitted`.
@@ -96,10 +96,7 @@ def parseSpec? (s : String) : Option ConvSpec :=
           | _, _ => none
         | _ => none
       | _ => none)).map ConvSpec.arakawaC
-  | ["ugrid", key, roles] =>
-    match (if key == "-" then some none else (parseStr? key).map some) with
-    | some key => some (.ugrid key (if roles == "-" then [] else roles.splitOn ","))
-    | none => none
+  | ["ugrid", roles] => some (.ugrid (if roles == "-" then [] else roles.splitOn ","))
   | _ => none
 
 def mkDataset (vars : List (DVar × Bool)) : Dataset :=
